@@ -316,6 +316,42 @@ class CompGen:
             out.append(sym[pos:pos + L]); pos += L
         return out
 
+    def add_foreign_duplex(self):
+        """a helix between two DIFFERENT fresh domains u and v (plain templates, equal length): their complementarity exists only
+        because the structure pairs them — also when the structure is [no-opt]"""
+        rng = self.rng
+        L = rng.randint(2, 5)
+        u, v = self.add_base(length=L, plain=True), self.add_base(length=L, plain=True)
+        others = [y for y in self.seqs if self.seqs[y]["len"] > 0 and y not in (u, v)]
+        def strand_with(items):
+            name = self.nm(rng.choice(["F", "Fa", "Fb"]))
+            nucs, segs = [], []
+            for it in items:
+                w = self.view(it["name"], it["star"])
+                nucs += w; segs.append(w)
+            self.stmts.append({"k": "strand", "dummy": False, "name": name, "items": items, "len": None})
+            self.strands[name] = {"len": len(nucs), "nucs": nucs, "segs": segs, "dummy": False}
+            return name
+        pad = lambda: [{"t": "ref", "name": rng.choice(others), "star": rng.random() < 0.3}] if others and rng.random() < 0.5 else []
+        su, sv = rng.random() < 0.3, rng.random() < 0.3
+        p1, p2, p3, p4 = pad(), pad(), pad(), pad()
+        n = lambda ps: sum(len(self.view(it["name"], it["star"])) for it in ps)
+        if rng.random() < 0.3:
+            loop = self.add_base(length=rng.randint(3, 5))
+            items = p1 + [{"t": "ref", "name": u, "star": su}, {"t": "ref", "name": loop, "star": False}, {"t": "ref", "name": v, "star": sv}] + p2
+            snames = [strand_with(items)]
+            dp = "." * n(p1) + "(" * L + "." * self.seqs[loop]["len"] + ")" * L + "." * n(p2)
+        else:
+            snames = [strand_with(p1 + [{"t": "ref", "name": u, "star": su}] + p2), strand_with(p3 + [{"t": "ref", "name": v, "star": sv}] + p4)]
+            dp = "." * n(p1) + "(" * L + "." * n(p2) + "+" + "." * n(p3) + ")" * L + "." * n(p4)
+        from props.c08 import spell_runlength, spell_plain
+        name = self.nm(rng.choice(["FD", "Hx"]))
+        text = (spell_runlength(rng, dp).strip() if rng.random() < 0.5 else spell_plain(rng, dp).strip()) or dp
+        opt = rng.choice([None, "no-opt", "no-opt", "2", "0.5"])
+        self.stmts.append({"k": "struct", "opt": opt, "name": name, "strands": snames, "domain": False, "text": text})
+        self.structs[name] = {"strands": snames, "dp": dp, "opt": opt}
+        return name
+
     def add_duplex(self):
         """two strands containing x and x* (or a hairpin x .. x*) and a structure pairing them"""
         rng = self.rng
@@ -463,6 +499,8 @@ class CompGen:
             self.add_struct()
         for _ in range(rng.choice([0, 1, 1, 2])):
             self.add_duplex()
+        if rng.random() < 0.35:
+            self.add_foreign_duplex()
         if getattr(self, "cover_strands", False):
             used = {s for st_ in self.structs.values() for s in st_["strands"]}
             for sname in list(self.strands):
